@@ -275,6 +275,44 @@ def long_inputs():
     return seqs
 
 
+def shard_decode_huge(arg):
+    """bodies at the 3/4-octet length boundary (2^24 - 1 and 2^24 bytes);
+    built inside the shard (16 MiB each)"""
+    ln, tag = arg
+    from ecdsa import der
+    sh = Shard()
+    table = decoders(der)
+    body = bytes([0x00 if tag == 0x03 else 0x11]) + b"\x5a" * (ln - 1)
+    good = rd.tlv(tag, body)
+    for label, data in (("canonical", good), ("trailing", good + b"\x05\x00"),
+                        ("truncated", good[:-1])):
+        for name in table:
+            if "object" in name or "integer" in name:
+                continue          # per-octet Python loops: minutes at 16 MiB
+            sh.n += 1
+            sh.nt += 1
+            bad = decode_case(der, name, data)
+            sh.hist["huge-body"] += 1
+            if bad is None:
+                continue
+            sh.hist["fail:" + bad[0]] += 1
+            sh.violation("decode-huge", bad[0],
+                         dict(decoder=name, length=ln, tag=tag, variant=label),
+                         str(bad[1])[:200], str(bad[2])[:200])
+    sh.sample(dict(tag=hex(tag), body_length=ln, note="4-octet length form"
+                   if ln >= 1 << 24 else "3-octet length form"), cap=1)
+    return sh
+
+
+def huge_case(decoder, ln, tag, variant):
+    from ecdsa import der
+    body = bytes([0x00 if tag == 0x03 else 0x11]) + b"\x5a" * (ln - 1)
+    good = rd.tlv(tag, body)
+    data = {"canonical": good, "trailing": good + b"\x05\x00",
+            "truncated": good[:-1]}[variant]
+    return decode_case(der, decoder, data)
+
+
 def shard_decode_long(arg):
     from ecdsa import der
     sh = Shard()
@@ -300,6 +338,11 @@ def replay(check, case):
     from ecdsa import der
     if check == "decode":
         bad = decode_case(der, case["decoder"], case["data"])
+    elif check == "decode-huge":
+        bad = huge_case(case["decoder"], case["length"], case["tag"],
+                        case["variant"])
+        if bad:
+            bad = (bad[0], str(bad[1])[:200], str(bad[2])[:200])
     elif check == "encode":
         v = case["v"]
         if case["kind"] == "oid":
@@ -360,6 +403,9 @@ def main(ctx):
                      (ch, SIGMA, maxlen, "Sigma^<=%d" % maxlen)))
     for ch in common.chunks(long_inputs(), ctx.jobs):
         jobs.append((shard_decode_long, "long-form-lengths", ch))
+    for ln in ((1 << 24) - 1, 1 << 24):
+        for tag in (0x04, 0x30, 0xa0, 0x03):
+            jobs.append((shard_decode_huge, "four-octet-lengths", (ln, tag)))
     # (c) encoders
     ints = list(range(0, ctx.pick(1 << 15, 1 << 17))) + \
         [(1 << k) + d for k in range(15, 1101, ctx.pick(7, 1)) for d in (-1, 0, 1)]
